@@ -201,7 +201,19 @@ type counts struct {
 	pfPastAppend            int // has a PortFwdRead/PortFwdGet frame (i.e. not between Read and AddJobToQueue)
 }
 
+// leakedStarts: accept loops that earlier cases could not end (Havoc lost the only reference
+// to their listener: `socks add` racing with kill/clear).  They stay for the life of the
+// process and are subtracted from every census.
+var leakedStarts int
+
 func count() counts {
+	c := rawCount()
+	c.starts -= leakedStarts
+	c.startsListening -= leakedStarts
+	return c
+}
+
+func rawCount() counts {
 	var c counts
 	for _, g := range census() {
 		switch g.kind {
@@ -314,6 +326,7 @@ func newFixture() *fixture {
 		// reclaimed by finalizers.  Keep the descriptor table small across 20k cases.
 		runtime.GC()
 	}
+	leakedStarts = rawCount().starts
 	f := &fixture{rec: tsx.NewRecorder(), key: make([]byte, 32), iv: make([]byte, 16)}
 	for i := range f.key {
 		f.key[i] = byte(i*7 + 3)
